@@ -76,7 +76,7 @@ def parse_struct(text):
                 raise ValueError(f"type {ty} does not match {w} bits")
         elif ty.startswith('Option<'):
             kind = 'o'
-        elif re.fullmatch(r'(self::)?In\d+', ty):
+        elif re.fullmatch(r'(self::)?N\d+', ty):
             kind = 'c'
         else:
             kind = 'e'
